@@ -232,6 +232,22 @@ def replay_case(arg):
                         fail('SeparateComplete', 'dtheta', dict(ctx, got=dth.tolist(), expected=exp.tolist()))
             except Exception as e:
                 fail('Sens', type(e).__name__, dict(ctx, error=repr(e)))
+        # ---- point masses are EXACT: an individual parameter that differs from the pooled / heterogeneous value by one unit
+        # in the last place (or by 1e-9 relative) is outside the support
+        if special and not fails:
+            for bump in ('ulp', 'rel'):
+                e2 = eta.copy()
+                e2[0, 0] = np.nextafter(e2[0, 0], np.inf) if bump == 'ulp' else e2[0, 0] * (1.0 + 1e-9)
+                try:
+                    with warnings.catch_warnings():
+                        warnings.simplefilter('ignore')
+                        v2 = model.compute_log_likelihood(np.array(P), e2)
+                        s2 = model.compute_sensitivities(np.array(P), e2)[0]
+                    cnt['point_mass_neighbours'] = cnt.get('point_mass_neighbours', 0) + 1
+                    if not (np.isneginf(v2) and np.isneginf(s2)):
+                        fail('Density', 'point_mass_not_exact', dict(ctx, bump=bump, got=[float(v2), float(s2)]))
+                except Exception as e:
+                    fail('Density', type(e).__name__, dict(ctx, bump=bump, error=repr(e)))
         if not (np.array_equal(P_in, P) and np.array_equal(eta_in, eta) and np.array_equal(w_in, w)):
             fail('NoInputWrite', 'inputs_modified', ctx)
         # ---- support: a negative scale scores -inf, for value and sensitivities ----------
